@@ -82,6 +82,24 @@ class MXT(Ext):
         return "MXT(%s)" % self.kind
 
 
+class CasadiModule(ModuleStub):
+    """the casadi module: besides the functions modelled by hand, every function the installed module really has (introspected)
+    exists; one that is also an MX method denotes the same operation as that method (assumed: CasADi binds both to one
+    implementation), any other is an opaque CasADi operation `ca.<name>`; a name the module does not have raises AttributeError"""
+
+    def sym_getattr(self, eng, name):
+        if name in self.attrs:
+            return self.attrs[name]
+        facts = casadi_facts()
+        if name in facts["module_functions"]:
+            if name in facts["mx_attributes"]:
+                return stub((lambda n: lambda eng, *a: MXT("method:" + n, a, a[0].shape if a and isinstance(a[0], MXT) else (1, 1)))(name))
+            return stub((lambda n: lambda eng, *a: MXT("ca." + n, a))(name))
+        if name.startswith("OP_") or name in ("pi", "inf", "nan"):
+            raise Unsupported("casadi.%s" % name)
+        raise PyRaise(eng.make_exc("AttributeError", "module 'casadi' has no attribute '%s'" % name))
+
+
 def install(eng):
     base_modules(eng)
     mx = VClass("MX")
@@ -89,7 +107,7 @@ def install(eng):
     fns = {}
     for nme in ("if_else", "mtimes", "vertcat", "transpose", "sum1", "fmin", "fmax"):
         fns[nme] = stub((lambda n: lambda eng, *a: MXT("ca." + n, a))(nme))
-    cas = ModuleStub("casadi", dict(fns, MX=mx, DM=VClass("DM")))
+    cas = CasadiModule("casadi", dict(fns, MX=mx, DM=VClass("DM")))
     eng.ext_modules["casadi"] = cas
     eng.ext_modules["numpy"] = ModuleStub("numpy", {"arange": stub(lambda eng, a, b, s=1, dtype=None: Arange(a, b, s))})
     eng.ext_modules["pymoca.tree"] = ModuleStub("pymoca.tree", {"TreeListener": VClass("TreeListener"), "TreeWalker": VClass("TreeWalker"), "flatten": None})
@@ -847,7 +865,11 @@ def h_builtin_functions(eng):
                     return VList([MXT("out0"), MXT("out1")])
                 return stub(call)
             raise Unsupported("Function.%s" % name)
-    eng.call_contracts["Generator.get_function"] = lambda eng, args, kw: Fn() if args[1] == "myfn" else _uns()
+    facts = casadi_facts()
+    # a user function may carry any name, also one the casadi module uses for a function of its own
+    clash = [n_ for n_ in ("times", "plus", "solve", "dot", "vec", "transform") if n_ in facts["module_functions"] and n_ not in facts["mx_attributes"]]
+    user_names = ["myfn"] + clash[:2]
+    eng.call_contracts["Generator.get_function"] = lambda eng, args, kw: Fn() if args[1] in user_names else _uns()
     is_ = lambda r, kind, *args: isinstance(r, MXT) and r.kind == kind and len(r.args) == len(args) and all(a is b or a == b for a, b in zip(r.args, args))
 
     def run(op, *operands):
@@ -891,8 +913,12 @@ def h_builtin_functions(eng):
     elif case == "user-function":
         mode = bool(eng.choice(2))
         g.fields["function_mode"] = (True, False) if mode else (False, True)
-        r = run("myfn", nodes[0], nodes[1], nodes[2])
-        ok = len(fn_calls) == 1 and len(fn_calls[0][0]) == 3 and all(a is b for a, b in zip(fn_calls[0][0], terms[:3])) and tuple(fn_calls[0][1]) == g.fields["function_mode"]
+        fname = user_names[eng.choice(len(user_names))]
+        nargs = 1 + eng.choice(3)
+        eng.input("function_name", fname)
+        eng.input("arguments", nargs)
+        r = run(fname, *nodes[:nargs])
+        ok = len(fn_calls) == 1 and len(fn_calls[0][0]) == nargs and all(a is b for a, b in zip(fn_calls[0][0], terms[:nargs])) and tuple(fn_calls[0][1]) == g.fields["function_mode"]
         ok = ok and isinstance(r, MXT) and r.kind == "ca.vertcat" and len(r.args) == 2 and r.args[0].kind == "out0" and r.args[1].kind == "out1"
         eng.prove("builtin.user_function_called_with_the_operands_in_order_outputs_stacked_in_order", z3.BoolVal(bool(ok)))
     elif case == "array":
@@ -926,7 +952,8 @@ LEVEL = "proof"
 TRUSTED = ["pyvc VC generator", "z3 5.1.0",
            "numeric meaning of the CasADi operations (__add__, __truediv__, fmin, if_else(c, a, b, True), mtimes, ...): assumed, sampled by the bounded replay",
            "np.arange(a, b, s) = {a + k*s | k >= 0} below b (above b for s < 0)",
-           "interface facts (which attributes casadi.MX has) are read from the installed package by tools/introspect_casadi.py on every run"]
+           "interface facts (which attributes casadi.MX has, which functions the casadi module has) are read from the installed package by tools/introspect_casadi.py on every run",
+           "a casadi module function that is also an MX method (ca.sin(x) / x.sin()) denotes the same operation: so either spelling of an elementary function is accepted"]
 ASSUMPTIONS = [
     "operator list of the statement: + - / ^ (and element-wise forms), * as matrix product, relations incl. <>, not/and/or, min/max/abs, elementary functions; 1-4 if branches; all integer loop bounds and non-zero steps",
     "arrays / matrix products' numeric layout and interpolation are outside the contracts",
